@@ -229,8 +229,8 @@ func checkC18(c *mc.Ctx) {
 					pairs = append(pairs, [2]int{a, b})
 				}
 			}
-			if !c.Thorough() && len(pairs) > 3000 {
-				// quick tier: the second failure within the next 12 Write calls
+			if (!c.Thorough() || !isBase) && len(pairs) > 3000 {
+				// quick tier, and the additional scenarios of the thorough tier: the second failure within the next 12 Write calls
 				var near [][2]int
 				for _, p := range pairs {
 					if p[1]-p[0] <= 12 {
